@@ -12,7 +12,6 @@ RULE = ("maps of every kind (all ten numeric dtypes, bool, bit-packed, wide mask
         "non-trivial = block order not ascending, or a partial read with an uncovered requested pixel")
 ASSUMPTIONS = ["metadata is compared as 'every user key is present with an equal value after the round trip' (the map "
                "read back additionally carries the file's own keywords, which is documented behaviour)",
-               "known finding F43: record arrays with unsigned integer fields are not generated here",
                "astropy FITS encoding / tile compression / header formatting trusted; Parquet not exercised "
                "(pyarrow is not installed; the property conditions on it)"]
 
@@ -21,7 +20,7 @@ def histories(rng, tier):
     n = 90 if tier == 'quick' else 1500
     out = []
     for _ in range(n):
-        c = gen.rand_cfg(rng, max_npix=768, name='m', rec_unsigned=False)
+        c = gen.rand_cfg(rng, max_npix=768, name='m')
         focus = rng.sample(range(c.ncov), min(c.ncov, rng.randint(1, 4)))
         h = [c.line()]
         for _ in range(rng.randint(1, 5)):
